@@ -8,7 +8,7 @@ ID = "C12"
 LEVEL = "exploration"
 TECHNIQUE = "deterministic simulation: seeded step scheduler over accounts that hold content outside the sync roots; outside-snapshot invariant after every engine step; path check of every engine-issued write"
 RULE = ("each run = flavour pair (incl. event filtering on/off, mixed case rules), roots given by path or by id, accounts pre-populated outside the roots (/other, the prefix siblings /localX and /local.bak "
-        "resp. /remoteX, a case sibling /LOCAL on case-sensitive sides, files in the account root), optionally a translate function that declines the subtree /skip; history of 1-8 operations mixing inside "
+        "resp. /remoteX, a case sibling /LOCAL on case-sensitive sides, files in the account root), optionally a translate function that declines the subtree /skip from the start or starts declining it later, when it already holds synchronised content; history of 1-8 operations mixing inside "
         "ops, outside ops and moves across the boundary in both directions, under schedule style eager|batched|bursty|split. Oracles: after every engine step everything outside each root (and under "
         "a declined subtree) is exactly what users left there; every engine-issued create/mkdir/upload/rename/delete names a path inside that side's root; a content version that users only ever kept "
         "outside a root appears nowhere inside the peer's root; at quiet the inside trees converge (move-out = deletion on the peer, move-in = creation). distinct = (history shape, schedule, flavour, "
@@ -82,9 +82,7 @@ def _setup(ex, case):
     ex.went_inside = set()
     w.ctl.resolve_paths = True
     ex.writes_seen = 0
-    if ex.decline:
-        dec = ex.decline
-
+    def install_decline(dec):
         def translate(cs, side, path):
             # decline the subtree on both sides
             for s in (0, 1):
@@ -92,6 +90,26 @@ def _setup(ex, case):
                     return None
             return NotImplemented
         w.translate = translate
+    if ex.decline:
+        install_decline(ex.decline)
+
+    def x_decline(exx, dec):
+        """the application starts declining a subtree that may already hold synchronised content (an exclusion added later)"""
+        if exx.decline:
+            return False
+        exx.decline = dec
+        install_decline(dec)
+        # from now on that subtree is 'left alone on both sides': it joins the outside snapshot
+        for side in (0, 1):
+            t = w.tree(side) or {}
+            for k, v in t.items():
+                if v[0] == "f" and _inside(dec, k):
+                    exx.went_inside.discard(v[1])
+        exx.outside = [_outside_view(exx, 0), _outside_view(exx, 1)]
+        exx.late_decline = True
+        return True
+    ex.actions["decline"] = x_decline
+    ex.late_decline = False
     # pre-populate the accounts outside the roots (before the engine has run at all)
     n = 0
     for side in (0, 1):
@@ -163,7 +181,7 @@ def _verdict(ex, case):
     if ex.nonquiescent:
         return Violation("nonquiescent", "engine still busy after the round budget")
     t0, t1 = _inside_tree(ex, 0), _inside_tree(ex, 1)
-    leak = (ex.outside_only - ex.went_inside)
+    leak = (ex.outside_only - ex.went_inside) if not ex.late_decline else set()
     for side, t in ((0, t0), (1, t1)):
         bad = [k for k, v in t.items() if v[0] == "f" and v[1] in leak]
         if bad:
@@ -182,8 +200,14 @@ def _gen(rng, ex, case, style):
     n = rng.randint(1, 8)
     mix = random_mix(rng)
     done = tries = 0
+    late = case.get("late_decline")
+    late_at = rng.randrange(1, n + 1) if late else None
+    names_d = ("d1", "d2", "skip") if (ex.decline or late) else ("d1", "d2")
     while done < n and tries < n * 6:
         tries += 1
+        if late and done == late_at and not ex.decline:
+            ex.apply(["Q"])
+            ex.apply(["X", "decline", "/skip"])
         side = rng.randrange(2)
         root = w.roots[side]
         r = rng.random()
@@ -193,11 +217,16 @@ def _gen(rng, ex, case, style):
         in_tree = {k: v for k, v in acc.items() if _inside(root, k) and k != root}
         in_dirs = [root] + [k for k, v in in_tree.items() if v[0] == "d"]
         in_files = [k for k, v in in_tree.items() if v[0] == "f"]
+        dz = (root + "/skip") if (ex.decline or case.get("late_decline")) else None
+        if dz:
+            # nothing is moved into, out of or across the (current or future) declined subtree: no defined outcome (see above)
+            in_dirs = [k for k in in_dirs if not _inside(dz, k)]
+            in_files = [k for k in in_files if not _inside(dz, k)]
         item = None
         if r < 0.45:
             t = w.tree(side)
             m = dict(mix)
-            op = propose(rng, t, m, ex.new_payload, names_d=("d1", "d2", "skip") if ex.decline else ("d1", "d2"))
+            op = propose(rng, t, m, ex.new_payload, names_d=names_d)
             if op and ex.decline and op[0] in ("rename", "rename_dir"):
                 # an object moved into / out of a declined subtree is, by the engine's documented design, neither deleted nor
                 # created on the peer ("a nested sync took ownership"): the statement only says declined paths are left alone,
@@ -247,7 +276,8 @@ def generate(rng, tier, index):
     flav = rng.choice(FLAVS)
     style = weighted(rng, (("eager", 3), ("batched", 4), ("bursty", 2), ("split", 3)))
     cfg = {"flavour": flav, "root_oids": rng.random() < 0.3}
-    case = {"prop": ID, "cfg": cfg, "style": style, "family": style, "decline": "/skip" if rng.random() < 0.25 else None}
+    r = rng.random()
+    case = {"prop": ID, "cfg": cfg, "style": style, "family": style, "decline": "/skip" if r < 0.2 else None, "late_decline": 0.2 <= r < 0.4}
     return drive(case, lambda ex: _gen(rng, ex, case, style), _verdict, setup=_setup, generating=True,
                  shape_extra=lambda ex: "|%s|%s" % (cfg["root_oids"], case["decline"]))
 
